@@ -221,15 +221,16 @@ impl InnerNodeManage {
         }
     }
 
-    fn update_process_range(&mut self) {
+    fn update_process_range(&mut self) -> bool {
         let new_range = self.get_current_process_range();
         if new_range == self.current_range {
-            return;
+            return false;
         }
         self.clear_timeout_process_range();
         self.history_ranges
             .push((self.current_range.clone(), now_millis()));
         self.current_range = new_range;
+        true
     }
 
     fn clear_timeout_process_range(&mut self) {
@@ -247,10 +248,14 @@ impl InnerNodeManage {
         if self.all_nodes.is_empty() {
             ProcessRange::new(0, 1)
         } else {
-            ProcessRange::new(
-                self.get_this_node().index as usize,
-                self.all_nodes.iter().filter(|(_, v)| v.is_valid()).count(),
-            )
+            // position among the LIVE nodes: the same numbering NodeManage::route_addr uses
+            let valid: Vec<&ClusterInnerNode> =
+                self.all_nodes.values().filter(|v| v.is_valid()).collect();
+            let index = valid
+                .iter()
+                .position(|v| v.id == self.local_id)
+                .unwrap_or_default();
+            ProcessRange::new(index, valid.len())
         }
     }
 
@@ -367,7 +372,10 @@ impl InnerNodeManage {
                 Self::client_invalid_instance(naming_actor, node);
             }
         }
-        self.update_process_range();
+        if self.update_process_range() {
+            // a liveness change moves the range as much as a membership change does
+            self.refresh_process_range();
+        }
     }
 
     fn client_invalid_instance(
